@@ -214,8 +214,15 @@ Definition canonical_cfg (fx : bool) (s : bytes) : bool :=
   | _ => false
   end.
 
+(* a number-like default whose value lies outside the modelled float64 fragment (more than 15 significant
+   digits): the model renders it exactly, the code through a float64, so "canonical" cannot be decided here;
+   such a default counts as number-like (class 1) *)
+Definition number_beyond_model (d : bytes) : bool :=
+  is_number d && match parse_any d with Ok v => negb (val_in_fragment v) | _ => false end.
+
 Definition default_class (fx : bool) (d : bytes) : nat :=
-  if canonical_cfg fx d then 0%nat
+  if number_beyond_model d then 1%nat
+  else if canonical_cfg fx d then 0%nat
   else if is_quoted d then (match d with [_] => 5%nat | _ => 3%nat end)
   else if bracketed d then 4%nat
   else if beqb (map lower_ascii d) lit_true || beqb (map lower_ascii d) lit_false then 2%nat
